@@ -3,7 +3,7 @@ import numpy as np
 from harness import lib
 
 RULE = ("cases = redirect_tree on every topology up to the bound x every new root x sort on/off; cat_tree on every pair of topologies up to "
-        "the bounds x every junction pair x translate on/off x coincident / non-coincident / nearly coincident placement (junctions 0.01 apart at coordinates of several thousand), concretised at several lattice units and "
+        "the bounds x every junction pair (a third of them with the second tree re-rooted beforehand without sorting, so that its root is not node 0) x translate on/off x coincident / non-coincident / nearly coincident placement (junctions 0.01 apart at coordinates of several thousand), concretised at several lattice units and "
         "offsets (up to 2e4 in the thorough tier); non-trivial = at least 3 nodes in total and the new root / junction is not the old root; "
         "distinct by (op, topologies, arguments)")
 # the last quick placement is deliberately NOT exactly representable in float32 (translation leaves a rounding residue)
@@ -37,6 +37,8 @@ def execute(c):
                     r=np.array([v * unit for v in rad], dtype=np.float32), tag=np.arange(n, dtype=np.int32) + base)
     t1 = mk(c["P1"], c["pos1"], c["ty1"], c["rad1"], 1000)
     t2 = mk(c["P2"], c["pos2"], c["ty2"], c["rad2"], 2000)
+    if c.get("pre2", 0) > 0:
+        t2 = redirect_tree(t2, c["pre2"], sort=False)      # a valid tree whose root is not its node 0 (the documented result of re-rooting without sorting)
     s1, s2 = lib.snapshot(t1), lib.snapshot(t2)
     r = cat_tree(t1, t2, c["i"], c["j"], translate=bool(c["tr"]))
     ident = [[int(v) // 1000, int(v) % 1000] for v in r.ndata["tag"]]
